@@ -51,20 +51,32 @@ def _hook(ev: Evaluator, env: Env, n: ast.Call) -> Any:
 
 def run(ctx: Ctx) -> None:
     ctx.explanation = (
-        "NARROW. Decided: the geometric component of the bin-count lower "
-        "bound is an EXACT integer ceiling of (total item area) / (bin "
-        "area) - accepted idioms are enumerated (q = a // b corrected by "
-        "+1 under q*b < a / q*b != a / a % b != 0, -(-a // b), (a+b-1)//b, "
-        "ceil_div) - the total area sums width*height*repetitions over ALL "
-        "rows unconditionally, the stored bound is the maximum of the "
-        "geometric and the Dell'Amico-Martello-Vigo component, and "
-        "BinCount.lower_bound / InstanceSpace.min_bins / the result-table "
-        "bounds read that attribute. An over-rounded ceiling exceeds the "
-        "optimum of perfectly packable instances; an under-rounded one "
-        "falls below the area bound - both break the property. NOT "
-        "decided: validity of the DAMV bound L(q) itself (a mathematical "
-        "theorem about the sets S1..S4, S23), hence not 'never exceeds an "
-        "achievable packing' as a whole.")
+        "D3.1 the geometric component of the bin-count lower bound is an "
+        "EXACT integer ceiling of (total item area) / (bin area) - accepted "
+        "idioms are enumerated (q = a // b corrected by +1 under q*b < a / "
+        "q*b != a / a % b != 0, -(-a // b), (a+b-1)//b, ceil_div) - the "
+        "total area sums width*height*repetitions over ALL rows "
+        "unconditionally, the stored bound is the maximum of the geometric "
+        "and the Dell'Amico-Martello-Vigo component, and BinCount."
+        "lower_bound / InstanceSpace.min_bins / the result-table bounds "
+        "read that attribute. D3.2 the DAMV component is computed as "
+        "defined in the cited paper (equations 2-7, theorem 3): the "
+        "classification cascade is equivalent to the interval definitions "
+        "of S1..S4 on every outcome of its comparisons (under 0 <= q <= "
+        "H/2 <= W/2), S23 is {S2 u S3 : l > H - q}, the greedy pairing "
+        "(S2 by non-increasing residual, first fitting S3 square with l <= "
+        "W - l_a removed, early give-up only when nothing was taken) "
+        "yields S3 - ^S3, and the normalised closed formula of L(q) - "
+        "sums made linear, every exact-ceiling idiom rewritten to "
+        "floordiv(a+b-1, b) - equals the transcription of equations 6-7 "
+        "in every case; the driver orients the bin (W >= H), ranges q over "
+        "0..floor(H/2), passes (W, H, q, CUTSQ(matrix)) in this order and "
+        "returns max(1, .); CUTSQ cuts floor(w/h) squares of side h and "
+        "continues with (h, w - k h), replicates by the multiplicity and "
+        "sorts non-increasingly. Validity of the bound is then the "
+        "theorem of the paper - NOT re-proved here; agreement with the "
+        "definition is sufficient for it, a different but also valid "
+        "bound would be reported as a deviation.")
     ctx.rule("D3.1", "geometric bound is an exact ceiling of the full item "
              "area; the stored bound is max(damv, geo); consumers read it")
     repo = ctx.repo
@@ -217,3 +229,5 @@ def run(ctx: Ctx) -> None:
            "all rows" if ok3 and ok4 else
            "packing_result.__lb_geometric is not an exact ceiling of the "
            "full item area", construct="reported geometric bound")
+    from sa.checks.c03_damv import run_damv
+    run_damv(ctx)
